@@ -3,7 +3,7 @@
    time by the C04b correspondence (listed in the evidence assumptions).  What the code computed
    before commits a37c004 / 27e8567 / d8f414a / fef12f3 is recorded as Examples in CCMProofs.v. *)
 From GmVerif Require Import Base.ListX Base.Bytes Hash.MD Cipher.SM4 Cipher.GF128 Cipher.GF128Proofs Cipher.GCM
-  Cipher.CCM Cipher.AES Cipher.AESProofs Cipher.ZUC Cipher.ZUCProofs Cipher.Aead Cipher.AeadProofs Cipher.GCMProofs Cipher.CCMProofs Cipher.AeadInstProofs.
+  Cipher.CCM Cipher.AES Cipher.AESProofs Cipher.ZUC Cipher.ZUCProofs Cipher.ChaCha Cipher.ChaChaProofs Cipher.Aead Cipher.AeadProofs Cipher.GCMProofs Cipher.CCMProofs Cipher.AeadInstProofs.
 
 (* ---- GF(2^128) ---- *)
 Theorem C04b_gf128_mul_spec :
@@ -216,3 +216,44 @@ Theorem C04b_aes_shift_rows_inverse :
   forall s : list N, length s = 16%nat -> inv_shift_rows (shift_rows s) = s.
 Proof. exact aes_shift_rows_inv. Qed.
 Print Assumptions C04b_aes_shift_rows_inverse.
+
+(* ---- ChaCha20 (src/chacha20.c) ---- *)
+(* chacha20_generate_keystream(state, counts, out) on a context built by chacha20_init: the bytes are
+   RFC 8439's keystream -- the block function at counters c, c+1, ..., c+counts-1 (the uint32_t
+   counter wraps modulo 2^32) -- and the context left behind is the one for counter c+counts *)
+Theorem C04b_chacha20_keystream_is_rfc8439_blocks :
+  forall key nonce n c,
+  chacha20_keystream n (chacha20_init key nonce c) =
+  (chacha20_init key nonce (c + N.of_nat n),
+   flat_map (fun i => chacha20_block (chacha20_init key nonce (c + N.of_nat i))) (seq 0 n)).
+Proof. exact keystream_blocks. Qed.
+Print Assumptions C04b_chacha20_keystream_is_rfc8439_blocks.
+
+(* chunking invariance from any 16-word context: one call for n+m blocks = a call for n, then one for m *)
+Theorem C04b_chacha20_keystream_chunking :
+  forall n m st,
+  chacha20_keystream (n + m) st =
+  let '(st1, r1) := chacha20_keystream n st in
+  let '(st2, r2) := chacha20_keystream m st1 in (st2, r1 ++ r2).
+Proof. exact keystream_app. Qed.
+Print Assumptions C04b_chacha20_keystream_chunking.
+
+(* exactly 64*counts bytes are produced and the context keeps its 16 words *)
+Theorem C04b_chacha20_keystream_length :
+  forall n st, length st = 16%nat ->
+  length (snd (chacha20_keystream n st)) = (64 * n)%nat /\ length (fst (chacha20_keystream n st)) = 16%nat.
+Proof. exact keystream_length. Qed.
+Print Assumptions C04b_chacha20_keystream_length.
+
+(* state->d[12]++ changes word 12 only, by +1 modulo 2^32 *)
+Theorem C04b_chacha20_counter_step :
+  forall s i, length s = 16%nat -> (i < 16)%nat ->
+  nth i (bump s) 0%N = if (i =? 12)%nat then add32 (nth i s 0%N) 1%N else nth i s 0%N.
+Proof. exact bump_nth. Qed.
+Print Assumptions C04b_chacha20_counter_step.
+
+(* the counter argument is taken modulo 2^32 *)
+Theorem C04b_chacha20_counter_wraps :
+  forall key nonce c, chacha20_init key nonce (c mod 2 ^ 32)%N = chacha20_init key nonce c.
+Proof. exact init_counter_mod. Qed.
+Print Assumptions C04b_chacha20_counter_wraps.
